@@ -44,7 +44,9 @@ def run(rep, tier, seed):
                 out.write(open(cyc).read())
         j = validate(w, allev)
         rows = read_ndjson(allev)
-        for b in j["bad"][:300]:
+        for b in j["bad"]:
+            if len(rep.violations) >= 300:
+                break
             e = rows[b["i"] - 1]
             why = sorted(set(b["why"]) & TAGS)
             if e["ev"] == "c09u":
